@@ -12,7 +12,7 @@ var RuleEdits = []string{
 	"dupOperationID", "pathParamNotInTemplate", "placeholderWithoutParam", "placeholderRepeatedAdjacent", "placeholderRepeatedApart",
 	"pathParamNotRequired", "dupParamInline", "dupParamViaShared", "twoBodyParams", "bodyAndForm",
 	"paramArrayNoItems", "paramNestedArrayNoItems", "headerArrayNoItems", "schemaArrayNoItems",
-	"requiredUndefined", "requiredUndefinedWithSchemaAdditionalProperties", "unresolvableDefinitionRef", "unresolvableParameterRef", "unresolvableResponseRef",
+	"requiredUndefined", "requiredUndefinedWithSchemaAdditionalProperties", "unresolvableDefinitionRef", "unresolvableFileRefs", "unresolvableParameterRef", "unresolvableResponseRef",
 	"dupInheritedProperty", "circularAncestry", "overlappingPaths", "overlappingPaths3",
 	"invalidPatternParam", "invalidPatternNonStringParam", "unresolvableAllOfRef", "invalidPatternHeader", "invalidPatternSchema", "invalidPatternItems",
 	"missingPaths", "emptyPlaceholder",
@@ -346,6 +346,18 @@ func ApplyRuleEdit(t *rapid.T, name string, doc map[string]any, info *SpecInfo) 
 			d, _ := defs[k].(map[string]any)
 			if props, ok := d["properties"].(map[string]any); ok {
 				props["dangling"] = map[string]any{"$ref": "#/definitions/NoSuchDefinition"}
+				return true
+			}
+		}
+		return false
+	case "unresolvableFileRefs":
+		// two references into files that do not exist
+		defs, keys := sortedDefs(doc)
+		for _, k := range keys {
+			d, _ := defs[k].(map[string]any)
+			if props, ok := d["properties"].(map[string]any); ok {
+				props["inNoFileA"] = map[string]any{"$ref": "no-such-file-a.json#/definitions/X"}
+				props["inNoFileB"] = map[string]any{"$ref": "no-such-file-b.yaml#/definitions/Y"}
 				return true
 			}
 		}
